@@ -6,6 +6,7 @@
        kind   0 mocknet hosts | 1 tcp+noise+yamux hosts (informative)
        flags  bit0: real resource managers (scope columns meaningful)
               bit1: the connection between the hosts is a limited (relayed) one
+              bit2: the dialer is a BlankHost
        U      size of the protocol universe; protocol IDs are 0..U-1
        limD_p / limL_p  outbound (dialer) / inbound (listener) stream limit of
                         protocol p's scope; -1 = unlimited
@@ -98,20 +99,38 @@ Definition count_if {A} (f : A -> bool) (l : list A) : Z :=
   fold_right (fun x acc => if f x then acc + 1 else acc) 0 l.
 
 (* the stream is charged to the negotiated protocol's scope on both sides:
-   every obtained stream bound to q is counted in q's scope (dialer outbound
-   and listener inbound), and nothing else is, up to streams that failed *)
+   each scope (dialer outbound, listener inbound) grows by exactly the obtained
+   streams bound to its protocol; a stream that was refused or failed is
+   charged nowhere (the scope's usage is the streams actually attached) *)
 Definition scope_ok (U : Z) (sc sc' : list Z) (rs : list ores) : bool :=
-  let nf := count_if (fun r => negb (obtained r)) rs in
   forallb (fun q =>
              let k := count_if (fun r => obtained r && (o_dp r =? q)) rs in
-             (vec_at sc q + k <=? vec_at sc' q) && (vec_at sc' q <=? vec_at sc q + k + nf) &&
-             (vec_at sc (U + q) + k <=? vec_at sc' (U + q)) &&
-             (vec_at sc' (U + q) <=? vec_at sc (U + q) + k + nf))
+             (vec_at sc' q =? vec_at sc q + k) && (vec_at sc' (U + q) =? vec_at sc (U + q) + k))
           (universe U).
 
-Definition batch_ok (U : Z) (has_scope : bool) (lim_in : Z -> Z) (m : mon)
-           (reqss : list (list Z)) (rs : list ores) (un : list (Z * Z)) (sc' : list Z) : bool :=
+(* some requested protocol's scope is at its limit (after the batch; counts only grow in a batch) *)
+Definition scope_full (U : Z) (c : cfg) (sc' : list Z) (reqs : list Z) : bool :=
+  existsb (fun p => ((0 <=? limL c p) && (limL c p <=? vec_at sc' (U + p))) ||
+                    ((0 <=? limD c p) && (limD c p <=? vec_at sc' p))) reqs.
+
+(* when the two sides have a protocol in common the open succeeds on one of
+   them, unless the dialer trusted earlier knowledge that lists a requested
+   protocol the listener no longer serves, a requested protocol's scope is at
+   its limit, or the only connection is a limited one and the caller did not
+   opt in *)
+Definition live_ok (U : Z) (has_scope : bool) (c : cfg) (live : list hent) (kn : list Z)
+           (sc' : list Z) (q : oreq) (r : ores) : bool :=
+  implb (common live (q_reqs q) && negb (obtained r))
+        (existsb (fun p => memz p kn && negb (matched live p)) (q_reqs q)
+         || (has_scope && scope_full U c sc' (q_reqs q))
+         || (c_limited c && negb (q_allow q))).
+
+Definition batch_ok (U : Z) (has_scope : bool) (c : cfg) (m : mon)
+           (opens : list oreq) (rs : list ores) (un : list (Z * Z)) (sc' : list Z) : bool :=
+  let reqss := map q_reqs opens in
+  let lim_in := limL c in
   (Z.of_nat (length reqss) =? Z.of_nat (length rs)) &&
+  forallb (fun x => live_ok U has_scope c (m_live m) (m_kn m) sc' (fst x) (snd x)) (combine opens rs) &&
   forallb (fun x => open_ok U has_scope lim_in (m_live m) (m_kn m) sc' (fst x) (snd x))
           (combine reqss rs) &&
   (* handlers that ran without reading a nonce: live, on a protocol they
@@ -129,7 +148,7 @@ Fixpoint slots_of (n : Z) (rs : list ores) : list (Z * Z) :=
   end.
 
 (* one monitored step: None = the observation violates the property *)
-Definition mon_step (U : Z) (has_scope : bool) (lim_in : Z -> Z) (m : mon) (o : op) (x : obs)
+Definition mon_step (U : Z) (has_scope : bool) (c : cfg) (m : mon) (o : op) (x : obs)
   : option mon :=
   match o, x with
   | OAdd name, _ =>
@@ -142,7 +161,7 @@ Definition mon_step (U : Z) (has_scope : bool) (lim_in : Z -> Z) (m : mon) (o : 
       Some (mkM (live_remove (m_live m) name) (m_nreg m) (m_kn m) (m_sc m) (m_held m) (m_nslot m))
   | OKnow k, _ => Some (mkM (m_live m) (m_nreg m) k (m_sc m) (m_held m) (m_nslot m))
   | OBatch opens, ObBatch rs un kn' sc' =>
-      if batch_ok U has_scope lim_in m (map q_reqs opens) rs un sc'
+      if batch_ok U has_scope c m opens rs un sc'
       then Some (mkM (m_live m) (m_nreg m) kn' (if has_scope then sc' else m_sc m)
                      (m_held m ++ slots_of (m_nslot m) rs) (m_nslot m + count_if obtained rs))
       else None
@@ -166,19 +185,19 @@ Definition mon_step (U : Z) (has_scope : bool) (lim_in : Z -> Z) (m : mon) (o : 
   | _, _ => None
   end.
 
-Fixpoint mon_run (U : Z) (has_scope : bool) (lim_in : Z -> Z) (m : mon) (i : Z)
+Fixpoint mon_run (U : Z) (has_scope : bool) (c : cfg) (m : mon) (i : Z)
          (tr : list (op * obs)) : list Z :=
   match tr with
   | [] => []
   | (o, x) :: r =>
-      match mon_step U has_scope lim_in m o x with
-      | Some m' => mon_run U has_scope lim_in m' (i + 1) r
+      match mon_step U has_scope c m o x with
+      | Some m' => mon_run U has_scope c m' (i + 1) r
       | None => [ERR_PROPERTY; i]
       end
   end.
 
-Definition holds (U : Z) (has_scope : bool) (lim_in : Z -> Z) (tr : list (op * obs)) : bool :=
-  match mon_run U has_scope lim_in (mon_init U) 0 tr with [] => true | _ => false end.
+Definition holds (U : Z) (has_scope : bool) (c : cfg) (tr : list (op * obs)) : bool :=
+  match mon_run U has_scope c (mon_init U) 0 tr with [] => true | _ => false end.
 
 (* ---- wire decoding --------------------------------------------------------- *)
 (* a counted list  k x_1..x_k  *)
@@ -334,7 +353,7 @@ Definition decode_case (l : list Z) : option (header * list (op * obs)) :=
           match take_n U r1 with
           | Some (ll, r2) =>
               match decode_ops U r2 (S (length r2)) with
-              | Some tr => Some (mkHd (Z.testbit flags 0) U (mkCfg (vecfn ld) (vecfn ll) (Z.testbit flags 1) (Z.testbit flags 0)), tr)
+              | Some tr => Some (mkHd (Z.testbit flags 0) U (mkCfg (vecfn ld) (vecfn ll) (Z.testbit flags 1) (Z.testbit flags 0) (Z.testbit flags 2)), tr)
               | None => None
               end
           | None => None
@@ -450,6 +469,6 @@ Definition conform_case (l : list Z) : list Z :=
 
 Definition monitor_case (l : list Z) : list Z :=
   match decode_case l with
-  | Some (h, tr) => mon_run (hd_U h) (hd_scope h) (limL (hd_cfg h)) (mon_init (hd_U h)) 0 tr
+  | Some (h, tr) => mon_run (hd_U h) (hd_scope h) (hd_cfg h) (mon_init (hd_U h)) 0 tr
   | None => [ERR_MALFORMED; 0]
   end.
